@@ -128,26 +128,7 @@ func c15ExistingRule(e *Env, rule string) {
 			e.R.Undecide(rule, key, "anchor not found")
 			continue
 		}
-		ok := false
-		for _, b := range fn.Blocks {
-			for _, ins := range b.Instrs {
-				mu, isMu := ins.(*ssa.MapUpdate)
-				if !isMu || !derivesFromField(mu.Key, "Name", 0) {
-					continue
-				}
-				conds := 0
-				for _, lb := range fn.Blocks {
-					if reach(b, true)[lb] && reach(lb, false)[b] {
-						if _, isIf := lb.Instrs[len(lb.Instrs)-1].(*ssa.If); isIf {
-							conds++
-						}
-					}
-				}
-				if conds == 1 && !readsField(fn, "Todo") {
-					ok = true
-				}
-			}
-		}
+		ok := existingSetFilled(fn, v.field)
 		e.R.Check(ok, rule, key, fmt.Sprintf("every element of o.%s is entered into the declared set unconditionally (todo ones included)", v.field))
 	}
 }
@@ -276,29 +257,49 @@ func c06Recorded(e *Env) {
 		return
 	}
 	okUnion := false
-	for _, b := range pf.Blocks {
-		for _, ins := range b.Instrs {
-			c, ok := ins.(*ssa.Call)
-			if !ok {
-				continue
-			}
-			if bi, ok := c.Call.Value.(*ssa.Builtin); !ok || bi.Name() != "append" || len(c.Call.Args) != 2 {
-				continue
-			}
-			if !derivesFromField(c.Call.Args[1], "DependsOn", 0) {
-				continue
-			}
-			// the loop around it has exactly one conditional (the range condition)
-			conds := 0
-			for _, lb := range pf.Blocks {
-				if reach(b, true)[lb] && reach(lb, false)[b] {
-					if _, isIf := lb.Instrs[len(lb.Instrs)-1].(*ssa.If); isIf {
-						conds++
+	// the accumulation loop may live in a helper of the package that receives the tokens and returns the list
+	var accFn *ssa.Function
+	var accCall ssa.Value
+	for _, uf := range unitFns(pf, 1) {
+		for _, b := range uf.Blocks {
+			for _, ins := range b.Instrs {
+				c, ok := ins.(*ssa.Call)
+				if !ok {
+					continue
+				}
+				if bi, ok := c.Call.Value.(*ssa.Builtin); !ok || bi.Name() != "append" || len(c.Call.Args) != 2 {
+					continue
+				}
+				if !derivesFromField(c.Call.Args[1], "DependsOn", 0) {
+					continue
+				}
+				// the loop around it has exactly one conditional (the range condition)
+				conds := 0
+				for _, lb := range uf.Blocks {
+					if reach(b, true)[lb] && reach(lb, false)[b] {
+						if _, isIf := lb.Instrs[len(lb.Instrs)-1].(*ssa.If); isIf {
+							conds++
+						}
 					}
 				}
+				if conds == 1 {
+					okUnion = true
+					accFn = uf
+				}
 			}
-			if conds == 1 {
+		}
+	}
+	if accFn != nil && accFn != pf {
+		// the helper returns the accumulator, and ResolveArg stores the helper's result
+		okUnion = false
+		for _, b := range accFn.Blocks {
+			if ret, isRet := b.Instrs[len(b.Instrs)-1].(*ssa.Return); isRet && len(ret.Results) == 1 && phiOfAppends(ret.Results[0]) {
 				okUnion = true
+			}
+		}
+		for _, c := range callsIn(pf, false) {
+			if c.Common().StaticCallee() == accFn {
+				accCall = c.Value()
 			}
 		}
 	}
@@ -309,7 +310,7 @@ func c06Recorded(e *Env) {
 		for _, ins := range b.Instrs {
 			if st, ok := ins.(*ssa.Store); ok {
 				if fa, ok := st.Addr.(*ssa.FieldAddr); ok && fieldName(fa) == "DependsOnParams" {
-					if derivesFromField(st.Val, "DependsOn", 0) || phiOfAppends(st.Val) {
+					if derivesFromField(st.Val, "DependsOn", 0) || phiOfAppends(st.Val) || (accCall != nil && st.Val == accCall) {
 						okStored = true
 					}
 				}
@@ -317,7 +318,7 @@ func c06Recorded(e *Env) {
 		}
 	}
 	r.Check(okStored, "R06.4", pkey+"#stores-the-union", "the result's DependsOnParams is the accumulated list")
-	loopExitRule(e, "R06.4", "internal/pkg/resolver", "a reference after the exit is compiled into the code but not recorded", "PatternResolver.ResolveArg")
+	loopExitRule(e, "R06.4", "internal/pkg/resolver", "a reference after the exit is compiled into the code but not recorded", reachableNames(e, "internal/pkg/resolver", "PatternResolver.ResolveArg")...)
 }
 
 func phiOfAppends(v ssa.Value) bool {
@@ -518,9 +519,19 @@ func c06Diagnostics(e *Env) {
 		}
 		for i, s := range errorSites(pkgCallees(fn)) {
 			key := fmt.Sprintf("%s.%s#error-site-%d(%s)", outputRel, v, i+1, strings.TrimPrefix(e.P.FuncKey(s.fn), outputRel+"."))
-			lk := failedLookup(s.fn, s.call)
+			mkey, _, _, okM := missingNameAt(s.fn, s.call)
 			names, missing := 0, false
-			if sl, ok := s.call.Call.Args[len(s.call.Call.Args)-1].(*ssa.Slice); ok {
+			if isErrorCtorHelper(s.call.Call.StaticCallee()) {
+				// the diagnostic is built by a newErrXxx helper: its arguments are the formatted values
+				for _, a := range s.call.Call.Args {
+					if derivesFromField(a, "Name", 0) || derivesFromField(a, "Tag", 0) {
+						names++
+					}
+					if okM && unwrap(a) == mkey {
+						missing = true
+					}
+				}
+			} else if sl, ok := s.call.Call.Args[len(s.call.Call.Args)-1].(*ssa.Slice); ok {
 				if al, ok := sl.X.(*ssa.Alloc); ok {
 					for _, ref := range *al.Referrers() {
 						if ia, ok := ref.(*ssa.IndexAddr); ok {
@@ -529,7 +540,7 @@ func c06Diagnostics(e *Env) {
 									if derivesFromField(st.Val, "Name", 0) || derivesFromField(st.Val, "Tag", 0) {
 										names++
 									}
-									if lk != nil && unwrap(st.Val) == lk.Index {
+									if okM && unwrap(st.Val) == mkey {
 										missing = true
 									}
 								}
